@@ -98,7 +98,9 @@ def build_mcmc(arg):
     jacobians_list = create_jacobians(json_list)
     if arg.clock is not None and arg.heights == "ratio":
         jacobians_list.append("tree")
-    if arg.coalescent in COALESCENT_PIECEWISE:
+    # non-centred: the GMRF is placed on log(theta) with theta = CumSumExp(unres),
+    # so both links of the chain owe their log-Jacobian
+    if arg.coalescent in COALESCENT_PIECEWISE and not arg.coalescent_non_centered:
         jacobians_list.remove("coalescent.theta")
 
     joint_jacobian = {
